@@ -476,6 +476,8 @@ pub enum Op {
     Collect { caller: u8 },
     /// adversarial: direct `WithdrawLiquidity {}` with a native coin attached (cw20-LP pool)
     WithdrawDirect { user: u8, denom: u8, amount: Uint128 },
+    /// adversarial: a cw20 Receive hook from the wrong place
+    ForgedHook { user: u8, via: u8, swap_hook: bool, amount: Uint128 },
     SetFees { fees: [Uint128; 3] },
     Ramp { a: RampA, dblocks: u64 },
     AdvanceBlock { dheight: u64 },
@@ -510,6 +512,7 @@ fn op() -> BoxedStrategy<Op> {
         2 => (0u8..4, 0u8..3, 0u8..3, amt110()).prop_map(|(user, from, to, amt)| Op::SwapThereAndBack { user, from, to, amt }),
         1 => (0u8..5).prop_map(|caller| Op::Collect { caller }),
         1 => (0u8..4, 0u8..3, prop_oneof![Just(1u128), Just(1000), gen::amount(1, 1u128 << 70)]).prop_map(|(user, denom, a)| Op::WithdrawDirect { user, denom, amount: Uint128::new(a) }),
+        1 => (0u8..4, prop_oneof![Just(0u8), Just(2u8)], any::<bool>(), prop_oneof![Just(1u128), Just(1000), gen::amount(1, 1u128 << 60)]).prop_map(|(user, via, swap_hook, a)| Op::ForgedHook { user, via, swap_hook: if via == 2 { true } else { swap_hook }, amount: Uint128::new(a) }),
         1 => gen::small_fee_triple().prop_map(|f| Op::SetFees { fees: [Uint128::new(f[0]), Uint128::new(f[1]), Uint128::new(f[2])] }),
         3 => (ramp_a, dblocks).prop_map(|(a, dblocks)| Op::Ramp { a, dblocks }),
         3 => prop_oneof![Just(1u64), Just(100), Just(5_000), Just(9_999), Just(10_000), 1u64..30_000].prop_map(|dheight| Op::AdvanceBlock { dheight }),
@@ -742,6 +745,28 @@ impl Check for TrioHistory {
                     let who = if *caller == 4 { tw.w.owner.clone() } else { tw.user(*caller) };
                     if tw.collect(&who).is_ok() {
                         rec.class("collect_ok");
+                        check_value = true;
+                    }
+                }
+                Op::ForgedHook { user, via, swap_hook, amount } => {
+                    let usr = tw.user(*user);
+                    let lp_b = tw.lp_balance(&usr);
+                    let supply_b = before.total_share;
+                    let bals_b: Vec<u128> = (0..3).map(|i| tw.w.bal(&tw.infos[i], &usr)).collect();
+                    if tw.forged_hook(&usr, *via, *swap_hook, amount.u128()).is_ok() {
+                        rec.class("hook_message_accepted");
+                        let lp_a = tw.lp_balance(&usr);
+                        let v = tw.view().map_err(|e| Fail::new(format!("Pool query failed: {e}")))?;
+                        let bals_a: Vec<u128> = (0..3).map(|i| tw.w.bal(&tw.infos[i], &usr)).collect();
+                        ensure!(
+                            v.total_share >= supply_b || lp_b.saturating_sub(lp_a) >= supply_b - v.total_share,
+                            "step {step}: a cw20 hook (via {via}, swap hook {swap_hook}, amount {amount}) burnt LP nobody gave up: supply {supply_b} -> {}, sender's LP {lp_b} -> {lp_a}",
+                            v.total_share
+                        );
+                        ensure!(
+                            (0..3).all(|i| bals_a[i] <= bals_b[i]),
+                            "step {step}: a forged cw20 hook (via {via}, swap hook {swap_hook}, amount {amount}) paid the sender: {bals_b:?} -> {bals_a:?}"
+                        );
                         check_value = true;
                     }
                 }
